@@ -9,6 +9,7 @@ import (
 	"verif/harness/props/c04"
 	"verif/harness/props/c05"
 	"verif/harness/props/c06"
+	"verif/harness/props/c07"
 	"verif/harness/props/c09"
 	"verif/harness/props/c13"
 	"verif/harness/props/c14"
@@ -27,6 +28,7 @@ func Specs() map[string]*core.Spec {
 		c04.Spec(),
 		c05.Spec(),
 		c06.Spec(),
+		c07.Spec(),
 		c09.Spec(),
 		c13.Spec(),
 		c14.Spec(),
